@@ -11,7 +11,7 @@ CHECKS = {
  'C02': ('model_checking', 'Exhaustive enumeration of the (context, slot, child[, grandchild], parenthesisation) table of the expression/statement/pattern grammar, of numeric spelling classes x contexts, of all strings over 14 quoting-relevant character classes up to length 3-5 in 28 literal placements, plus explicit-state exploration of the token-spacing machine (lexeme-class pairs observed from the real printers x every lexeme variant, re-tokenised). Every case is printed by the real unparser and by minify(all transforms off) and compared with a strict tree oracle under up to nine interpreters.',
          'bounded exhaustive enumeration of the grammar table + explicit-state exploration of the token-spacing machine on the real implementation',
          'Trusted: the interpreters\' own ast.parse/tokenize as reference; bounded depth/length as stated in the evidence file.'),
- 'C03': ('exploration', 'Every compilable scope-tree program (runnable or not; incl. decoy names from the renamer's own alphabet, depth-3 chains and annotation-position programs) x all 15 non-empty subsets of the renaming switches (x annotation removal): the output must compile, must be alpha-equivalent to the un-renamed print under an independent implementation of the language\'s scoping rules (bijection on bindings, identity on builtin/unbound names, aliases merged), and must behave the same when run. The resolver is cross-checked against symtable on every program.',
+ 'C03': ('exploration', 'Every compilable scope-tree program (runnable or not; incl. decoy names from the renamer\'s own alphabet, depth-3 chains and annotation-position programs) x all 15 non-empty subsets of the renaming switches (x annotation removal): the output must compile, must be alpha-equivalent to the un-renamed print under an independent implementation of the language\'s scoping rules (bijection on bindings, identity on builtin/unbound names, aliases merged), and must behave the same when run. The resolver is cross-checked against symtable on every program.',
          'bounded exhaustive enumeration of scope trees; static alpha-equivalence oracle + differential execution',
          'Scoping rules as implemented in mc/oracle/scopes.py (cross-checked against symtable and execution); <=2/3 nested scopes; one tracked name.'),
  'C04': ('exploration', 'Scope-tree programs and all fragment programs x option sets (all subsets of the renaming switches x annotation/literal-statement bases; full(7) on fragments): attribute, keyword, import, class-body, keyword-callable parameter, dunder and unbound names keep their spelling at every aligned position; module-level name set unchanged except for added underscore names when rename_globals is off.',
